@@ -963,6 +963,9 @@ func replay(kind string, raw json.RawMessage) error {
 	if strings.HasPrefix(kind, "path") {
 		return run.Decode(raw, checkPath)
 	}
+	if strings.HasPrefix(kind, "share") {
+		return run.Decode(raw, checkShare)
+	}
 	return run.Decode(raw, checkSeq)
 }
 
@@ -991,7 +994,13 @@ func TestProp(t *testing.T) {
 	// alphabet over the 4-name universe, for every root kind.
 	maxLen := run.Pick(3, 4)
 	n, okAll := 0, true
-	for _, root := range enumRoots() {
+	for ri, root := range enumRoots() {
+		// the six basic roots get the full length; the roots added for the root-data fallback
+		// (same-named types, interface-keyed map, embedding structs) one op less
+		limit := maxLen
+		if ri >= 6 {
+			limit = maxLen - 1
+		}
 		var rec1 func(prefix []Op) bool
 		rec1 = func(prefix []Op) bool {
 			if len(prefix) > 0 {
@@ -1034,7 +1043,7 @@ func TestProp(t *testing.T) {
 					}
 				}
 			}
-			if len(prefix) == maxLen {
+			if len(prefix) == limit {
 				return true
 			}
 			for _, op := range alphabet(len(prefix)) {
@@ -1050,7 +1059,7 @@ func TestProp(t *testing.T) {
 		}
 	}
 	if okAll {
-		rec.Exhaustive(fmt.Sprintf("all op sequences of length 1..%d over a %d-op alphabet x %d root kinds (%d histories)", maxLen, len(alphabet(0)), len(enumRoots()), n))
+		rec.Exhaustive(fmt.Sprintf("all op sequences of length 1..%d over a %d-op alphabet x 6 basic root kinds and of length 1..%d x %d further root-data kinds (%d histories)", maxLen, len(alphabet(0)), maxLen-1, len(enumRoots())-6, n))
 	}
 
 	// ---- family 1 after a prelude: every sequence of <= 5 ops of a 5-op alphabet (anonymous
@@ -1095,6 +1104,12 @@ func TestProp(t *testing.T) {
 	if pok {
 		rec.Exhaustive(fmt.Sprintf("all paths of <= %d steps (valid and invalid continuations, 4 spellings, %d bindings in rotation) over %d zoo values (%d paths)", run.Pick(3, 4), len(binds), len(zoo()), pn))
 	}
+
+	// ---- family 3, pointer sharing: every pair of places sharing one struct pointer
+	if sn, sok := enumShare(rec, shard, shards); sok {
+		rec.Exhaustive(fmt.Sprintf("every pair of the %d pointer places of the sharing root holding the SAME pointer, the rest nil or distinct, value and pointer root (%d cases)", len(shareSlots), sn))
+	}
+	run.Rapid(t, rec, "sharerandom", genShare, classifyShare, checkShare)
 
 	// ---- random histories
 	run.Rapid(t, rec, "random", func(t *rapid.T) SeqCase { return genSeq(t, rec, known) }, classifySeq, checkSeq)
